@@ -9,7 +9,10 @@ import (
 // arbitrary (independent) pool contents, give the same result.
 func C14_PoolIndependence() {
 	s := verif.NondetString("s", verif.Param("PARSE_N", 10))
+	prime := func(p string) { ParseVector(p) }
+	verif.PrimePool(1, prime)
 	c1, e1 := ParseVector(s)
+	verif.PrimePool(2, prime)
 	c2, e2 := ParseVector(s)
 	verif.Assert(e1 == e2, "same error whatever the pool held")
 	verif.Assert((c1 == nil) == (c2 == nil), "same nil-ness whatever the pool held")
@@ -21,7 +24,10 @@ func C14_PoolIndependence() {
 // C14_PoolIndependenceShaped: the same on the structured inputs.
 func C14_PoolIndependenceShaped() {
 	s := shapedInput()
+	prime := func(p string) { ParseVector(p) }
+	verif.PrimePool(1, prime)
 	c1, e1 := ParseVector(s)
+	verif.PrimePool(2, prime)
 	c2, e2 := ParseVector(s)
 	verif.Assert(e1 == e2, "same error whatever the pool held")
 	verif.Assert((c1 == nil) == (c2 == nil), "same nil-ness whatever the pool held")
